@@ -151,7 +151,78 @@ def intOps : Nat → List Int → Int
   | 3, [a, b, c, d] => a * b - c * d
   | 4, [a, b, c, d] => a * b + c * d
   | 6, [a] => a * a
+  | 7, [a] => a
   | _, _ => 0
+
+/-! ### interior aliasing: a parameter component may live ANYWHERE (a lower-level operand pointing into the receiver)
+A placement `ρ i f` = (object, component) that holds component `f` of parameter `i`: `z.MulByElement(x, &z.A0)` is the placement
+that puts component 0 of parameter 2 at (0, 0). Whole-object patterns are the placements `fun i f => (π i, f)`. The receiver's own
+components must be pairwise distinct cells (`recvInjective`). -/
+
+abbrev Placement := Nat → Nat → Nat × Nat
+
+def place (ρ : Placement) : Name → Cell
+  | .param i f => .obj (ρ i f).1 (ρ i f).2
+  | .loc k => .loc k
+
+def stepAt {V : Type} (I : Nat → List V → V) (ρ : Placement) (m : Mem V) (p : Prim) : Mem V :=
+  m.set (place ρ p.dst) (I p.op (p.srcs.map fun s => m (place ρ s)))
+
+def runAt {V : Type} (I : Nat → List V → V) (ρ : Placement) (b : Body) (m : Mem V) : Mem V :=
+  b.foldl (stepAt I ρ) m
+
+/-- distinct objects holding the values the placed components hold -/
+def pullAt {V : Type} (ρ : Placement) (m : Mem V) : Mem V
+  | .obj i f => m (place ρ (.param i f))
+  | .loc k => m (.loc k)
+
+def recvInjective (ρ : Placement) : Prop := ∀ f f', ρ 0 f = ρ 0 f' → f = f'
+
+/-- interior-alias safety: wherever the parameter components live (receiver components pairwise distinct), every receiver
+component ends with the value it gets when all parameters are distinct objects holding equal values -/
+def interiorSafe (b : Body) : Prop :=
+  ∀ (V : Type) (I : Nat → List V → V) (ρ : Placement), recvInjective ρ → ∀ (m : Mem V) (f : Nat),
+    runAt I ρ b m (place ρ (.param 0 f)) = run I id b (pullAt ρ m) (.obj 0 f)
+
+/-! Typed interior aliasing: parameters flagged `low i` are LOWER-LEVEL operands (a base-field scalar, an `E2` coefficient of a
+sparse product) that may live anywhere — inside the receiver, inside another operand, or on their own; the other parameters have
+the receiver's type and alias as whole objects (pattern `π`). `copyInMixed` = the component-wise copy-in discipline for the
+whole-object parameters + "no lower-level operand is read after the first write to a receiver component". -/
+
+def srcOKMixed (low : Nat → Bool) (W : List Nat) : Name → Bool
+  | .param 0 _ => true
+  | .param (i + 1) f => if low (i + 1) then W.isEmpty else !W.contains f
+  | .loc _ => true
+
+def copyInMixedAux (low : Nat → Bool) (W : List Nat) : Body → Bool
+  | [] => true
+  | p :: b =>
+    p.srcs.all (srcOKMixed low W) &&
+      match p.dst with
+      | .param 0 f => copyInMixedAux low (f :: W) b
+      | .param (_ + 1) _ => false
+      | .loc _ => copyInMixedAux low W b
+
+def copyInMixed (low : Nat → Bool) (b : Body) : Bool := copyInMixedAux low [] b
+
+def mixedPlacement (low : Nat → Bool) (π : Pattern) (ρ : Placement) : Prop :=
+  low 0 = false ∧ ∀ i, low i = false → ∀ f, ρ i f = (π i, f)
+
+/-- the receiver ends with the by-value result for every whole-object pattern of the same-typed parameters and EVERY position
+of the lower-level operands -/
+def interiorSafeFor (low : Nat → Bool) (b : Body) : Prop :=
+  ∀ (V : Type) (I : Nat → List V → V) (π : Pattern) (ρ : Placement), mixedPlacement low π ρ → ∀ (m : Mem V) (f : Nat),
+    runAt I ρ b m (.obj (π 0) f) = run I id b (pullAt ρ m) (.obj 0 f)
+
+/-- `E3.MulByElement(x, y)` of bw6-761 (y = component 0 of parameter 2; op 7 = copy): `_y := *y` first -/
+def mulByElementCopy : Body :=
+  [ ⟨.loc 0, 7, [.param 2 0]⟩, ⟨.param 0 0, 1, [.param 1 0, .loc 0]⟩, ⟨.param 0 1, 1, [.param 1 1, .loc 0]⟩,
+    ⟨.param 0 2, 1, [.param 1 2, .loc 0]⟩ ]
+
+/-- the same without the defensive copy (small-field `E2.MulByElement`, and the seeded change) -/
+def mulByElementNoCopy : Body :=
+  [ ⟨.param 0 0, 1, [.param 1 0, .param 2 0]⟩, ⟨.param 0 1, 1, [.param 1 1, .param 2 0]⟩,
+    ⟨.param 0 2, 1, [.param 1 2, .param 2 0]⟩ ]
 
 /-! ### line protocol
 `C19 <pkg.Type> <Method> <partition> <kinds>:<seed>` → `same=1 ops=1`.
@@ -187,11 +258,46 @@ def seedOK (s : String) (nblocks : Nat) : Bool :=
       !h.isEmpty && h.length ≤ 16 && h.toList.all (fun c => (hexDigit c).isSome)
   | _ => false
 
+/-! Interior aliasing (optional 5th token `p.q.i[,p.q.i…]`): pointer operand `p` (a singleton block) points at the `i`-th
+sub-object of its type inside the object of position `q`. In the by-value model the operand's VALUE is that sub-object's value
+before the call and the answer is again `same=1 ops=1`; the model side validates the syntax (the same checks as the Go executor):
+`p`, `q` one lower-case hex digit below the number of positions, `p ≠ q`, `p` a singleton block, no `p` twice, no `q` that is
+itself some `p`, `i` = 1…3 decimal digits. `C19_interior_*` (Props/C19.lean) are the statements about the memory model. -/
+
+def parseInterItem (s : String) : Option (Nat × Nat) :=
+  match s.splitOn "." with
+  | [a, b, i] =>
+    match a.toList, b.toList with
+    | [ca], [cb] =>
+      if 1 ≤ i.length && i.length ≤ 3 && i.toList.all (fun c => '0' ≤ c && c ≤ '9') then
+        match hexDigit ca, hexDigit cb with
+        | some p, some q => some (p, q)
+        | _, _ => none
+      else none
+    | _, _ => none
+  | _ => none
+
+def noDup : List Nat → Bool
+  | [] => true
+  | a :: t => !t.contains a && noDup t
+
+def interOK (s : String) (blocks : List (List Nat)) : Bool :=
+  match (s.splitOn ",").mapM parseInterItem with
+  | none => false
+  | some items =>
+    let n := blocks.flatten.length
+    let ps := items.map Prod.fst
+    items.all (fun (p, q) => decide (p < n) && decide (q < n) && p != q && blocks.contains [p] && !ps.contains q) && noDup ps
+
 def handle (args : List String) : String :=
   match args with
   | [_ty, _meth, part, seed] =>
     match parsePartition part with
     | some blocks => if seedOK seed blocks.length then "same=1 ops=1" else "bad-op"
+    | none => "bad-op"
+  | [_ty, _meth, part, seed, inter] =>
+    match parsePartition part with
+    | some blocks => if seedOK seed blocks.length && interOK inter blocks then "same=1 ops=1" else "bad-op"
     | none => "bad-op"
   | _ => "bad-op"
 
